@@ -1,6 +1,281 @@
 import Fabio.Driver.Proto
+import Fabio.Model.C13
 namespace Fabio.Driver.C13
-open Lean Fabio.Driver
+open Lean Fabio.Driver Fabio.Model.C13
 
-def streams : List (String × Handler) := []
+/-! JSON glue: Go strings arrive as JSON strings (valid UTF-8) or, where the bytes may be arbitrary, hex. -/
+
+def bytesOf (s : String) : Str := s.toUTF8.toList
+
+def hexVal (c : Char) : Option UInt8 :=
+  if '0' ≤ c && c ≤ '9' then some (c.toNat - 48).toUInt8
+  else if 'a' ≤ c && c ≤ 'f' then some (c.toNat - 87).toUInt8
+  else if 'A' ≤ c && c ≤ 'F' then some (c.toNat - 55).toUInt8 else none
+
+def unhexL : List Char → Option Str
+  | [] => some []
+  | a :: b :: r => do
+      let x ← hexVal a; let y ← hexVal b; let t ← unhexL r
+      pure ((x <<< 4 ||| y) :: t)
+  | _ => none
+
+def hexDigit (n : UInt8) : Char := Char.ofNat (if n < 10 then 48 + n.toNat else 87 + n.toNat)
+def hexOf (b : Str) : String := String.ofList (b.flatMap (fun (c : UInt8) => [hexDigit (c >>> 4), hexDigit (c &&& 15)]))
+
+/-- display: the string when the bytes are UTF-8, else `hex:…` -/
+def showB (b : Str) : Json :=
+  match String.fromUTF8? ⟨b.toArray⟩ with
+  | some s => Json.str s
+  | none => Json.str ("hex:" ++ hexOf b)
+
+def getS (j : Json) (k : String) : Str :=
+  match j.getObjValAs? String k with
+  | .ok s => bytesOf s
+  | .error _ => []
+
+def getHex (j : Json) (k : String) : Except String Str :=
+  match j.getObjValAs? String k with
+  | .ok s => match unhexL s.toList with
+    | some b => pure b
+    | none => throw s!"bad hex in {k}"
+  | .error _ => pure []
+
+def getI (j : Json) (k : String) : Int :=
+  match j.getObjValAs? Int k with
+  | .ok i => i
+  | .error _ => 0
+
+def getB (j : Json) (k : String) : Bool :=
+  match j.getObjValAs? Bool k with
+  | .ok b => b
+  | .error _ => false
+
+def getO (j : Json) (k : String) : Json := (j.getObjVal? k).toOption.getD Json.null
+
+/-- a dumped target (`tgtOut` of the harness) -/
+def targetOf (j : Json) : Except String RTarget := do
+  let p ← getHex j "pathhex"
+  let rp ← getHex j "rawpathhex"
+  return { url := { scheme := getS j "scheme", host := getS j "host", path := p, rawPath := rp, rawQuery := getS j "rawquery" },
+           strip := getS j "strip", prepend := getS j "prepend", code := getI j "code" }
+
+def urlJson (u : URL) : Json :=
+  Json.mkObj [("scheme", showB u.scheme), ("host", showB u.host), ("pathhex", hexOf u.path),
+              ("rawpathhex", hexOf u.rawPath), ("rawquery", showB u.rawQuery)]
+
+def urlOfDump (j : Json) : Except String URL := do
+  let p ← getHex j "pathhex"
+  let r ← getHex j "rawpathhex"
+  return { scheme := getS j "scheme", host := getS j "host", path := p, rawPath := r, rawQuery := getS j "rawquery" }
+
+/-- `url.ParseRequestURI` accepts the origin form only when it starts with `/` and holds no control byte -/
+def targetOK (t : Str) : Bool := t.head? == some 47 && t.all (fun c => c ≥ 32 && c != 127)
+
+def rawPathOf (t : Str) : Str := (cut 63 t).1
+def rawQueryOf (t : Str) : Str := (cut 63 t).2.1
+
+/-! tags -/
+
+def formTag (t : RTarget) : String :=
+  let hp := hasSuffix t.url.host vPath
+  if hp then "hostpath"
+  else match splitAtSub vPath t.url.path with
+    | none => "fixed"
+    | some (pre, _) => if !singlePath t then "multipath" else if hasSuffix pre slash then "slashpath" else "barepath"
+
+def needsEsc (s : Str) : Bool := s.any (fun c => shouldEscape c .path || c == 37)
+
+/-- the input class (one tag per class of interest; the failing classes have tags of their own) -/
+def classTag (t : RTarget) (req : URL) : String :=
+  let form := formTag t
+  if !t.url.rawPath.isEmpty then "tmpl-encoded" else
+  if form == "fixed" || form == "multipath" then form else
+  let raw := !req.rawPath.isEmpty
+  let stripDec := !t.strip.isEmpty && hasPrefix req.path t.strip
+  let stripRaw := !t.strip.isEmpty && hasPrefix (if raw then req.rawPath else req.path) t.strip
+  if raw && stripDec != stripRaw then "strip-encoding-mismatch"
+  else if raw && (needsEsc t.prepend || needsEsc t.url.path) then "prefix-needs-escape"
+  else form ++ (if raw then "-enc" else "-plain") ++ (if stripDec then "-strip" else "") ++ (if t.prepend.isEmpty then "" else "-prepend")
+
+/-- input classes recorded as findings (checks/C13.findings.json) -/
+def findingClasses : List String := ["tmpl-encoded", "strip-encoding-mismatch", "prefix-needs-escape", "self-redirect-unnoticed"]
+
+/-! ### c13.build -/
+
+def buildH : Handler := fun inp impl => do
+  let err := (impl.getObjValAs? String "err").toOption.getD ""
+  let redirectOpt := getS inp "redirect"
+  let host := getS inp "host"
+  let target := getS inp "target"
+  if err == "route" then
+    -- the route command was rejected (template does not parse): nothing is served
+    return ({ model := Json.mkObj [("err", "route")], agree := true, spec := true, nontrivial := false, tag := "route-rejected" } : Verdict).toJson
+  let t ← targetOf (getO impl "t")
+  let mcode := redirectCode redirectOpt
+  if (impl.getObjValAs? String "panic").isOk then
+    return ({ model := Json.mkObj [("code", mcode)], agree := false, spec := false, nontrivial := true,
+              tag := if codeSpec t.code then "panic" else "code-not-3xx" } : Verdict).toJson
+  let okOpts := t.strip == getS inp "strip" && t.prepend == getS inp "prepend"
+  let codeOK := codeSpec t.code
+  if !codeOK || t.code != mcode then
+    return ({ model := Json.mkObj [("code", mcode)], agree := t.code == mcode, spec := codeOK, nontrivial := true,
+              tag := if codeOK then "code" else "code-not-3xx" } : Verdict).toJson
+  if getB (getO impl "t") "odd" || (tmplParts t).1.isEmpty then
+    return ({ model := Json.null, agree := true, spec := true, nontrivial := false, tag := "odd-template" } : Verdict).toJson
+  let mreq := if targetOK target then parseTarget host target else none
+  match mreq with
+  | none =>
+    return ({ model := Json.mkObj [("err", "request")], agree := err == "request", spec := true, nontrivial := false, tag := "request-rejected" } : Verdict).toJson
+  | some req =>
+    if err == "request" then
+      return ({ model := urlJson req, agree := false, spec := true, nontrivial := false, tag := "request-parse" } : Verdict).toJson
+    let ireq ← urlOfDump (getO impl "req")
+    let reqAgree := ireq == req
+    if mcode == 0 then
+      let noRedirect := getI impl "status" == 0 && getS impl "location" == []
+      return ({ model := Json.mkObj [("code", 0)], agree := reqAgree && okOpts && noRedirect, spec := noRedirect, nontrivial := false,
+                tag := "code-0" } : Verdict).toJson
+    let u := buildRedirectURL t req
+    let loc := hexEscapeNonASCII (urlString u)
+    let iu ← urlOfDump (getO impl "u")
+    let iloc := getS impl "location"
+    let istatus := getI impl "status"
+    let agree := reqAgree && okOpts && iu == u && iloc == loc && istatus == mcode
+    let spec := istatus == t.code && (locationSpec t host (escapedPath req) (rawPathOf target) req.rawQuery iloc)
+    let tag := classTag t req
+    return ({ model := Json.mkObj [("status", mcode), ("location", showB loc), ("u", urlJson u)],
+              agree := agree, spec := spec, nontrivial := formTag t != "fixed" || contains vHost t.url.host,
+              tag := tag } : Verdict).toJson
+
+/-! ### c13.url: the `net/url` fragment against `net/url` -/
+
+def urlH : Handler := fun inp impl => do
+  let target := getS inp "target"
+  let host := getS inp "host"
+  let path := getS inp "path"
+  let rawpath := getS inp "rawpath"
+  let mreq := if targetOK target then parseTarget host target else none
+  let iok := getB impl "ok"
+  let a1 ← match mreq with
+    | none => pure (!iok)
+    | some req => do
+      if !iok then pure false else
+      let ireq ← urlOfDump (getO impl "req")
+      pure (ireq == req && getS impl "escaped" == escapedPath req &&
+            getS impl "str" == urlString { req with scheme := lit "https" })
+  let w : URL := { host := host, path := path, rawPath := rawpath }
+  let un := unescape rawpath
+  let iun ← getHex impl "unesc_hex"
+  let a2 := getS impl "escaped2" == escapedPath w && getS impl "str2" == urlString w &&
+            getB impl "unesc_ok" == un.isSome && (un.isNone || un == some iun)
+  -- law: what EscapedPath returns decodes to Path (evaluated on net/url's own output)
+  let spec := unescape (getS impl "escaped2") == some path || path == [42]
+  return ({ model := Json.mkObj [("escaped2", showB (escapedPath w)), ("str2", showB (urlString w)),
+                                 ("req", match mreq with | some r => urlJson r | none => Json.null)],
+            agree := a1 && a2, spec := spec, nontrivial := !rawpath.isEmpty || target.contains 37,
+            tag := if mreq.isNone then "reject" else if (mreq.map (·.rawPath.isEmpty)).getD true then "default-encoding" else "rawpath" } : Verdict).toJson
+
+/-! ### c13.http -/
+
+def candsOf (j : Json) : Except String (List (Option RTarget)) :=
+  match j with
+  | .arr a => a.toList.mapM (fun x => match x with
+      | .null => pure none
+      | o => do let t ← targetOf o; pure (some t))
+  | _ => pure []
+
+def is3xx (s : Int) : Bool := 300 ≤ s && s ≤ 399
+
+def httpH : Handler := fun inp impl => do
+  let err := (impl.getObjValAs? String "err").toOption.getD ""
+  if err != "" then
+    return ({ model := Json.null, agree := true, spec := true, nontrivial := false, tag := "harness-" ++ err } : Verdict).toJson
+  if getI impl "status" == -1 then
+    -- the connection was closed without a response: the handler panicked
+    return ({ model := Json.null, agree := false, spec := false, nontrivial := true, tag := "no-response" } : Verdict).toJson
+  let host := getS inp "host"
+  let target := getS inp "target"
+  let tls := getB inp "tls"
+  let xfp := getS inp "xfp"
+  let status := getI impl "status"
+  let hits := getI impl "hits"
+  let iloc := getS impl "location"
+  let cands ← candsOf (getO impl "cands")
+  -- templates outside the modelled shapes (no scheme, no host, user info): nothing is claimed
+  let oddCand := match getO impl "cands" with
+    | .arr a => a.toList.any (fun x => x != Json.null && getI x "code" != 0 &&
+        (getB x "odd" || (match targetOf x with | .ok t => (tmplParts t).1.isEmpty | .error _ => true)))
+    | _ => false
+  if oddCand || (getS inp "host").isEmpty then
+    return ({ model := Json.null, agree := true, spec := true, nontrivial := false, tag := "odd-template-or-empty-host" } : Verdict).toJson
+  let ups : List Bool := match getO impl "upstream" with
+    | .arr a => a.toList.map (fun x => x == Json.bool true)
+    | _ => []
+  let mreq := if targetOK target then parseTarget host target else none
+  match mreq with
+  | none =>
+    return ({ model := Json.mkObj [("status", 400)], agree := status == 400, spec := hits == 0, nontrivial := false, tag := "bad-request" } : Verdict).toJson
+  | some req =>
+    if status == 400 then
+      return ({ model := Json.null, agree := true, spec := hits == 0, nontrivial := false, tag := "server-400" } : Verdict).toJson
+    let scheme := reqScheme xfp tls
+    let res := lookup scheme req cands
+    -- specification on the implementation's answer
+    let own (l : Loc) : Bool := l.scheme == scheme && l.host == hexEscapeNonASCII (escape .host host) &&
+        (unescape l.path == some req.path)
+    let redirectCands := cands.filterMap (fun c => match c with | some t => if t.code ≠ 0 then some t else none | none => none)
+    let lastIsRedirect := match cands.getLast? with | some (some t) => t.code ≠ 0 | _ => false
+    let specRedirect := if is3xx status then
+        hits == 0 && redirectCands.any (fun t => t.code == status && locationSpec t host (escapedPath req) (rawPathOf target) req.rawQuery iloc) &&
+        (match parseLoc iloc with | some l => !(own l) || lastIsRedirect | none => false)
+      else true
+    match res with
+    | some (t, some u) =>
+      let loc := hexEscapeNonASCII (urlString u)
+      let skipped := (cands.takeWhile (fun c => c != some t)).any (fun c => match c with | some c => c.code ≠ 0 | none => false)
+      let ownLoc := match parseLoc loc with | some l => own l | none => false
+      let cls := if findingClasses.contains (classTag t req) then classTag t req
+        else if selfRedirect u scheme req then "self-last-host"
+        else if ownLoc then "self-redirect-unnoticed" else classTag t req
+      let tag := if findingClasses.contains cls then cls else (if skipped then "skip-then-redirect-" else "redirect-") ++ cls
+      return ({ model := Json.mkObj [("status", t.code), ("location", showB loc), ("hits", 0)],
+                agree := status == t.code && iloc == loc && hits == 0, spec := specRedirect && is3xx status, nontrivial := true,
+                tag := tag } : Verdict).toJson
+    | some (t, none) =>
+      -- a plain route: proxied (the instrumented upstream answers 200) — or some other upstream of the pool
+      let idx := (cands.takeWhile (fun c => c != some t)).length
+      let isUp : Bool := ups.getD idx false
+      let skipped := (cands.take idx).any (fun c => match c with | some c => c.code ≠ 0 | none => false)
+      return ({ model := Json.mkObj [("redirect", false), ("upstream", isUp)],
+                agree := !is3xx status && (!isUp || (status == 200 && hits == 1)), spec := specRedirect, nontrivial := skipped,
+                tag := if skipped then "skip-then-proxy" else "proxy" } : Verdict).toJson
+    | none =>
+      let skipped := cands.any (fun c => match c with | some c => c.code ≠ 0 | none => false)
+      return ({ model := Json.mkObj [("status", 404)], agree := status == 404 && hits == 0, spec := specRedirect, nontrivial := skipped,
+                tag := if skipped then "skip-then-noroute" else "noroute" } : Verdict).toJson
+
+/-! ### c13.concurrent -/
+
+def concH : Handler := fun inp impl => do
+  let err := (impl.getObjValAs? String "err").toOption.getD ""
+  if err != "" then
+    return ({ model := Json.null, agree := true, spec := true, nontrivial := false, tag := "harness-" ++ err } : Verdict).toJson
+  let host := getS inp "host"
+  let t ← targetOf (getO impl "t")
+  let pairs := match getO impl "pairs" with | .arr a => a.toList | _ => []
+  let check (p : Json) : Bool × Bool :=
+    let target := getS p "target"
+    let iloc := getS p "location"
+    match parseTarget host target with
+    | none => (false, false)
+    | some req =>
+      (iloc == location t req && getI p "status" == t.code,
+       getI p "status" == t.code && locationSpec t host (escapedPath req) (rawPathOf target) req.rawQuery iloc)
+  let rs := pairs.map check
+  let foreign := getI impl "foreign" + getI impl "panics"
+  return ({ model := Json.mkObj [("foreign", 0)], agree := rs.all (·.1) && foreign == 0, spec := rs.all (·.2) && foreign == 0,
+            nontrivial := t.code ≠ 0 && getI inp "g" ≥ 2, tag := formTag t } : Verdict).toJson
+
+def streams : List (String × Handler) :=
+  [("c13.build", buildH), ("c13.url", urlH), ("c13.http", httpH), ("c13.concurrent", concH)]
 end Fabio.Driver.C13
